@@ -9,6 +9,9 @@ Ok == <<0, "ok">>
 InitOf(tr) == PNew(PInit, 0)
 StepVerdict(tr, s2, e) ==
    IF e.op = "del" \/ e.op = "new" THEN "ok"
+   \* a repeated final call (many of them, from one thread per object, run-length encoded by the recorder): still the result of the lineage alone
+   ELSE IF e.op = "again" THEN (IF e.lineage # s2.lin[e.obj] THEN "harness: solo replay used another lineage than the model's"
+                                ELSE IF e.out # e.solo THEN "result depends on other objects: differs from the same history run alone" ELSE "ok")
    ELSE LET target == IF e.op = "copy" THEN Len(s2.lin) ELSE e.obj IN
         IF e.lineage # s2.lin[target] THEN "harness: solo replay used another lineage than the model's"
         ELSE IF e.out # e.solo THEN "result depends on other objects: differs from the same history run alone"
